@@ -186,7 +186,7 @@ class HookSession:
     def __init__(self, op):
         import subprocess
         from vlib import native
-        self.p = subprocess.Popen([native.garden_bin(), "verif", op], stdin=subprocess.PIPE, stdout=subprocess.PIPE,
+        self.p = subprocess.Popen([native.garden_bin(), "verif", op], preexec_fn=native.die_with_parent, stdin=subprocess.PIPE, stdout=subprocess.PIPE,
                                   stderr=subprocess.DEVNULL, text=True)
 
     def ask(self, obj):
